@@ -6,6 +6,7 @@ UNITS = {
     'FRAMEENC': dict(template='frameenc.rs', rlimit=60),
     'CONN': dict(template='conn.rs', rlimit=30),
     'FRAMEDEC': dict(template='framedec.rs', rlimit=30),
+    'SENDSPLIT': dict(template='sendsplit.rs', rlimit=30),
 }
 
 COMMON_TRUSTED = [
@@ -35,7 +36,7 @@ ENGINE = 'that the tokio engine tasks (select! loops, mpsc channels) call these 
 
 PROPS = {
     'C02': dict(
-        units=['SESSION'], kani=[], level='proof', title='Settlement',
+        units=['SESSION', 'SENDSPLIT'], kani=[], level='proof', title='Settlement',
         assumptions=[ASYNC, ENGINE,
             'session::consecutive_chunk_indices enters with an assumed contract (iterator adapters are outside the Verus subset)',
             'in unit SESSION a link is a ghost call log whose echo answer is the contract of LinkRelay::on_incoming_disposition (sender && !settled && rcv-settle-mode second)',
@@ -50,7 +51,8 @@ PROPS = {
             'non-transfer performatives larger than the frame are cut into pseudo-frames by start_send: see known finding / DESIGN D9 (not decided by a contract here)',
             'decoding under arbitrary read fragmentation is tokio_util LengthDelimitedCodec + FramedRead (third party), not verified']),
     'C01': dict(
-        units=['FRAMEENC', 'SESSION'], kani=[], level='proof', title='End-to-end delivery (sequential stages only)',
+        units=['FRAMEENC', 'SESSION', 'SENDSPLIT'],
+        lemmas={'SENDSPLIT': ['lemma_link_expected', 'lemma_link_mids'], 'FRAMEENC': ['lemma_expected_properties', 'lemma_mids_payload']}, kani=[], level='proof', title='End-to-end delivery (sequential stages only)',
         assumptions=[ASYNC, ENGINE,
             'only the sequential stages are under contract: session hold-back/stamping (SESSION) and frame splitting (FRAMEENC); link-level split, reassembly and the codec round trip are separate units where built',
             'mpsc hand-offs, engine select! loops, credit/window liveness under scheduling, and all configurations x schedules are NOT decided']),
@@ -82,7 +84,8 @@ PROPS = {
             'ONLY channel-max is decided. The idle time-out sentences (heartbeats within the peer\'s idle-time-out, local time-out teardown) are timed behaviour of tokio Interval/Sleep and have no contract here (no clock in either verifier) -- see DESIGN D10',
             'slab::Slab modelled as a partial map whose vacant key is unoccupied']),
     'C11': dict(
-        units=['SESSION', 'FRAMEENC', 'CONN'], kani=[], level='proof', title='Identifiers',
+        units=['SESSION', 'FRAMEENC', 'CONN', 'SENDSPLIT'],
+        lemmas={'SENDSPLIT': ['lemma_link_expected'], 'FRAMEENC': ['lemma_expected_properties']}, kani=[], level='proof', title='Identifiers',
         assumptions=[ASYNC, ENGINE,
             'fewer than 2^32 link handles are live in one session (handle = slab key as u32)',
             'slab::Slab is modelled as a partial map whose vacant key is unoccupied (trusted stand-in)',
